@@ -156,6 +156,7 @@ func wfRangeReq(o *ObjectRangeRequest) bool {
 //@ requires          nonneg:  size >= 0
 //@ requires          rdr:     r != nil
 //@ ensures [C08,C12] exact:   imp(err == nil, len(b) == size && rd_pos(r) == old(rd_pos(r)) + size)
+//@ ensures [C01]     content: imp(err == nil, all(i, 0, size, b[i] == rd_data(r)[old(rd_pos(r)) + i]))
 //@ ensures [C08]     nothing: imp(err != nil, b == nil)
 //@ ensures [C08]     fresh:   imp(err == nil && size > 0, fresh(b))
 //@ modifies rd_pos(r)
@@ -934,8 +935,14 @@ func wfRangeReq(o *ObjectRangeRequest) bool {
 //@ props C09 C08
 //@ requires           inv:    gInv(g) && w != nil && rqInv(r)
 //@ func (*GoFakeS3).createObject
-//@ props C09 C08 C12
+//@ props C09 C08 C12 C01
 //@ requires           inv:    gInv(g) && w != nil && rqInv(r)
+//@ ensures [C01,C08]  wired:  imp(put_count == old(put_count) + 1, put_bucket == bucket && put_key == object && put_size >= 0 &&
+//@                              typeis(put_input, *hashingReader) && dyn(put_input, *hashingReader) != nil &&
+//@                              (dyn(put_input, *hashingReader).inner == old(r.Body) ||
+//@                               (typeis(dyn(put_input, *hashingReader).inner, *chunkedReader) && dyn(dyn(put_input, *hashingReader).inner, *chunkedReader) != nil &&
+//@                                dyn(dyn(put_input, *hashingReader).inner, *chunkedReader).inner == old(r.Body))))
+//@ ensures [C01]      once:   put_count <= old(put_count) + 1
 //@ ensures [C08]      reject: imp(err != nil && errcode(err) != "" && !g.autoBucket, store_gen == old(store_gen))
 //@ ensures [C08]      badlen: imp(err == nil && resp_status(w) == 400 && old(resp_status(w)) != 400 && !g.autoBucket, store_gen == old(store_gen))
 //@ func (*GoFakeS3).copyObject
